@@ -75,7 +75,8 @@ def run(ctx):
     shapes = set()
     feats = {"at_action_limit": 0, "actions_ge_128_bytes": 0, "actions_ge_16384_bytes": 0, "duplicate_keys_across_actions": 0,
              "limit_above_default_16": 0, "more_than_16_actions": 0, "keys_not_declared_with_all_permissions": 0,
-             "sponsor_key_declared_by_an_action": 0, "all_five_prices_nonzero": 0}
+             "sponsor_key_declared_by_an_action": 0, "all_five_prices_nonzero": 0, "keys_with_chunk_suffix_0": 0,
+             "keys_with_chunk_suffix_ge_255": 0}
     auths, min_slack = set(), None
     for f in files:
         l = vlib.read_ndjson(f)[1]
@@ -98,6 +99,10 @@ def run(ctx):
             feats["keys_not_declared_with_all_permissions"] += 1
         if any(k["name"] == "$sponsor-balance" for a in l["actions"] for k in a["keys"]):
             feats["sponsor_key_declared_by_an_action"] += 1
+        if any(k["chunks"] == 0 for a in l["actions"] for k in a["keys"]):
+            feats["keys_with_chunk_suffix_0"] += 1
+        if any(k["chunks"] >= 255 for a in l["actions"] for k in a["keys"]):
+            feats["keys_with_chunk_suffix_ge_255"] += 1
         if all(p > 0 for p in l["prices"]):
             feats["all_five_prices_nonzero"] += 1
         if len(sizes) >= 2:
@@ -116,7 +121,8 @@ def run(ctx):
     if ctx.only is None:
         if len(auths) < 3 or not feats["at_action_limit"] or not feats["actions_ge_128_bytes"] or not feats["more_than_16_actions"] \
                 or not feats["duplicate_keys_across_actions"] or not feats["keys_not_declared_with_all_permissions"] \
-                or not feats["sponsor_key_declared_by_an_action"] or not feats["all_five_prices_nonzero"]:
+                or not feats["sponsor_key_declared_by_an_action"] or not feats["all_five_prices_nonzero"] \
+                or not feats["keys_with_chunk_suffix_0"] or not feats["keys_with_chunk_suffix_ge_255"]:
             raise vlib.Infra("vacuous: %s auths=%s" % (feats, sorted(auths)))
     fails = vlib.validate_scenarios(ctx, "WireSize_Trace", "WireSize_Trace.cfg", files, label="tv", signature_fn=sig, max_reports=3)
     for f in files:
@@ -144,7 +150,7 @@ def run(ctx):
     ctx.cov["rule"] = ("seeded shapes: rules' action limit from {1,8,16,32,64,128,255}; a quarter with exactly the limit and one size "
                        "class from {1,2,54,127,128,129,300,16383,16384}; a quarter sweeping the count with sizes {128,1,16384,127}; the "
                        "rest random counts and size mixes (an eighth: 3-16 actions all >= 128 bytes); 0-3 declared keys per action over 5 "
-                       "names x 3 chunk sizes with permissions from {read, read|write, read|allocate, all, write, allocate|write} "
+                       "names x chunk suffixes {0,1,2,3, sometimes 255 / 65535 with prices <= 2} with permissions from {read, read|write, read|allocate, all, write, allocate|write} "
                        "(duplicates across actions, one key in eight is the sponsor's own balance key), random rule costs in a third, "
                        "prices from {0,1,2,7,100}, half of the shapes with all five prices non-zero; non-zero chain id; factories ed25519 / secp256r1 / bls in turn. "
                        "distinct_nontrivial = distinct (auth, size multiset, key set) with >= 2 actions; evaluations = generated "
